@@ -158,6 +158,8 @@ PROPS = {
                             'obligations': ['gc_histories/Heap::collect/ensures#exactly_the_reachable_objects_are_counted_live',
                                             'gc_histories/Heap::collect/ensures#reachable_object_keeps_contents',
                                             'gc_histories/Heap::collect/ensures#reachable_object_keeps_links',
+                                            'gc_histories/Heap::collect/ensures#unreachable_object_is_reset',
+                                            'gc_histories/Heap::create_guard/ensures#new_guard_has_no_roots',
                                             'gc_histories/Guard::alloc/ensures#new_object_has_default_contents',
                                             'gc_histories/Guard::unguard/ensures#true_iff_was_guarded',
                                             'gc_histories/Gc::drop/ensures#stale_handles_do_not_affect_the_slots_new_tenant']}],
